@@ -7,6 +7,7 @@ CONSTANTS
   MaxFaults = 2
   MaxEnv = 2
   ForeignAt = "ref"
+  RenderFails = FALSE
   FailKinds = {"fnerror2", "fatal1"}
 VIEW view
 ACTION_CONSTRAINT Emit
